@@ -39,6 +39,15 @@ type unitKind struct {
 	Big      bool // unit of many packets: single deviations over the small alphabet only, no pairs
 }
 
+// privateUnit: a payload unit on a PID the library has no parser for (no PSI PID, no PES start code).
+func privateUnit(pid uint16, head []byte, n int) SUnit {
+	b := append([]byte{}, head...)
+	for i := 0; i < n; i++ {
+		b = append(b, byte(0x30+i%0x40))
+	}
+	return SUnit{PID: pid, Bytes: b}
+}
+
 // lastSectionStart returns the offset (within unit bytes) of the first byte of the last section.
 func lastSectionStart(u SUnit) int {
 	secs, _ := ref.ParseUnit(u.Bytes)
@@ -75,6 +84,13 @@ func c02Kinds(seed int64) []unitKind {
 		{Name: "pes-bounded-start-code-lookalikes", Make: func(_, _ int) SUnit { return PESUnit(0x101, 0xc0, hostilePayload(4, 300), 4, true) }},
 		{Name: "pes-unbounded-ff-ends", Make: func(_, _ int) SUnit { return PESUnit(0x100, 0xe0, hostilePayload(9, 400), 5, false) }},
 		{Name: "pes-unbounded-all-ff", Make: func(_, _ int) SUnit { return PESUnit(0x100, 0xe0, hostilePayload(10, 250), 6, false) }},
+		// private data on a PID that is neither PSI nor PES: the unit starts with bytes that are close to, but not,
+		// the PES start code 00 00 01. Nothing is delivered for it and nothing is reported as an error.
+		{Name: "private-data-5-0-1", Make: func(_, _ int) SUnit { return privateUnit(0x102, []byte{0x05, 0x00, 0x01, 0xe0, 0x00, 0x00, 0x80, 0x00, 0x00}, 300) }},
+		{Name: "private-data-0-5-1", Make: func(_, _ int) SUnit { return privateUnit(0x102, []byte{0x00, 0x05, 0x01, 0xe0, 0x00, 0x00, 0x80, 0x00, 0x00}, 300) }},
+		{Name: "private-data-0-0-2", Make: func(_, _ int) SUnit { return privateUnit(0x102, []byte{0x00, 0x00, 0x02, 0xe0, 0x00, 0x00, 0x80, 0x00, 0x00}, 200) }},
+		{Name: "private-data-0-1-0", Make: func(_, _ int) SUnit { return privateUnit(0x102, []byte{0x00, 0x01, 0x00, 0x00, 0x01, 0xe0, 0x00, 0x00}, 190) }},
+		{Name: "private-data-2-bytes", Make: func(_, _ int) SUnit { return privateUnit(0x102, []byte{0x00, 0x00}, 0) }},
 		{Name: "pes-with-af", Make: func(_, _ int) SUnit {
 			u := PESUnit(0x100, 0xe0, pesPayload(13, 380, seed), 2, false)
 			u.AF = &ref.AF{RAI: true, PCR: &ref.PCR{Base: 0x1_ffff_ffff, Ext: 0x1ff}, HasPrivate: true, Private: []byte{9, 8, 7}}
@@ -221,6 +237,8 @@ func buildC02(k *unitKind, cs c02Case, seed int64) (st *Stream, finalPkt int, ok
 		var ub SUnit
 		if k.PSI {
 			ub = k.Make(60, 0) // the same sections behind a long pointer field: the unit announces a larger size
+		} else if len(u.Exp) == 0 {
+			ub = privateUnit(u.PID, []byte{0x09, 0x00, 0x01}, 900)
 		} else {
 			ub = PESUnit(u.PID, u.Exp[0].StreamID, pesPayload(98, 900, seed), 76, u.Exp[0].StreamID != 0xe0)
 		}
@@ -249,6 +267,8 @@ func buildC02(k *unitKind, cs c02Case, seed int64) (st *Stream, finalPkt int, ok
 		var u2 SUnit
 		if k.PSI {
 			u2 = k.Make(0, 0)
+		} else if len(u.Exp) == 0 {
+			u2 = privateUnit(u.PID, []byte{0x00, 0x00, 0x03}, 40)
 		} else {
 			u2 = PESUnit(u.PID, u.Exp[0].StreamID, pesPayload(99, 30, seed), 77, u.Exp[0].StreamID != 0xe0)
 		}
@@ -436,7 +456,7 @@ func checkC02(c *mc.Ctx) {
 	})
 	_ = skipped
 	c.Ev.AddScenario(mc.Scenario{Name: "single-unit-packetisation", SpaceSize: total, Executed: done, Exhaustive: done == total,
-		Bound: "21 unit kinds (two of them beyond 1024 bytes on the PAT and a PMT PID, single deviations over {1,2,91,182,183} only) x pointer_field {0,1,7,50} x trailing stuffing {0,1,5,190} x {AF stuffing, 0xFF padding} x {flush by next unit, flush at EOF} x (greedy + every single chunk deviation c in 1..183 at every packet + pairs over {1,2,3,91,182,183})"})
+		Bound: "26 unit kinds (two of them beyond 1024 bytes on the PAT and a PMT PID, single deviations over {1,2,91,182,183} only) x pointer_field {0,1,7,50} x trailing stuffing {0,1,5,190} x {AF stuffing, 0xFF padding} x {flush by next unit, flush at EOF} x (greedy + every single chunk deviation c in 1..183 at every packet + pairs over {1,2,3,91,182,183})"})
 	c02PMTBeforePAT(c)
 	c02MultiSectionPAT(c)
 	c02Continuous(c)
